@@ -40,6 +40,15 @@ fn render_bounded(input: &[u8]) -> Result<String, vcore::Fail> {
     if sink2.refused || r2.is_err() { return Err(vcore::Fail::new("size-bound", format!("Display of Decoder::tokens() on {} exceeded {} bytes or failed", short_hex(input), sink2.limit))) }
     if sink2.out != sink.out { return Err(vcore::Fail::new("borrowed-differs", format!("Display of Decoder::tokens() on {} gives {:?}, minicbor::display gives {:?}", short_hex(input), sink2.out, sink.out))) }
     if d.position() != 0 { return Err(vcore::Fail::new("borrowed-moved", format!("formatting Decoder::tokens() moved the decoder to {}", d.position()))) }
+    // the notation is the notation: width, fill, alignment, sign, precision and the alternate flag of the caller's format string
+    // (`{:>8}`, `{:.3}`, `{:+}`, `{:#}`, `{:08}`) apply to nothing inside the document
+    if input.len() <= 64 {
+        let _case = crate::total::case_guard("minicbor::display", input);
+        for (spec, got) in [("{:12}", format!("{:12}", minicbor::display(input))), ("{:>7}", format!("{:>7}", minicbor::display(input))), ("{:.1}", format!("{:.1}", minicbor::display(input))), ("{:+}", format!("{:+}", minicbor::display(input))),
+                            ("{:#}", format!("{:#}", minicbor::display(input))), ("{:08.3}", format!("{:08.3}", minicbor::display(input))), ("{:*^5.0}", format!("{:*^5.0}", minicbor::display(input)))] {
+            if got != sink.out { return Err(vcore::Fail::new("format-spec-leaks", format!("display of {} formatted with `{}` gives {:?}, with `{{}}` it gives {:?}", short_hex(input), spec, got, sink.out))) }
+        }
+    }
     Ok(sink.out)
 }
 
